@@ -210,19 +210,22 @@ Section Style.
   Definition keep_of (s : bytes) : Z := if i then ps_dig_keep16 (zlen s) else ps_dig_keep8 (zlen s).
   Definition eol_of : Z := if i then ps_dig_eol16 else ps_dig_eol8.
 
+  Lemma short_keep s : ps_dig_short i (zlen s) = (keep_of s <? 0).
+  Proof. unfold ps_dig_short, keep_of, ps_dig_keep16, ps_dig_keep8. destruct i; cbn [andb]; lia. Qed.
+
   Lemma dig_scan_found flen ok : forall Ls saved pos rest,
     Forall (fun l => l <> first) Ls ->
     dig_scan i first flen ok saved pos (Ls ++ first :: rest) =
       let s := List.last Ls saved in
       let init := removelast (saved :: Ls) in
-      if keep_of s <? 0 then SPanic else
+      if keep_of s <? 0 then SMalf else
       SText true (concat (map (ps_conv i) init) ++ ps_conv i (ztake (keep_of s) s))
                  (zlen (concat init) + zlen (ztake (keep_of s) s))
                  (eol_of + zlen first + Z.max 0 (flen - (pos + zlen (concat Ls) + zlen first))).
   Proof.
     induction Ls as [|l Ls IH]; intros saved pos rest HLs.
     - cbn [app dig_scan List.last removelast concat map]. unfold ps_dig_is_first. rewrite bytes_eqb_refl.
-      unfold keep_of, eol_of, ps_dig_sig_line. destruct (_ <? 0); [reflexivity|].
+      rewrite short_keep. unfold keep_of, eol_of, ps_dig_sig_line. destruct (_ <? 0); [reflexivity|].
       f_equal.
       all: cbn [concat app]; change (@zlen Z []) with 0; try reflexivity; try lia.
     - inversion HLs as [|? ? Hl HLs']; subst. cbn [app dig_scan]. unfold ps_dig_is_first.
